@@ -45,6 +45,9 @@ def w_residual(S, chain, cond, reach, rewards):
 
 
 def judge(ctx, g, prune, o):
+    if o["outcome"] not in ("ok", "ValueError:nosolution", "Timeout"):
+        ctx.violation("no-result", {"game": gen.desc(g), "prune": prune}, {"outcome": o["outcome"], "msg": o.get("msg")})
+        return True
     if o["outcome"] != "ok":
         return None
     S = Solved(g, prune, o)
